@@ -93,7 +93,7 @@ Definition check_export (D : desc) (svcs : list svcd) (wanted : list str) (cls_e
   | RErr _ => N.eqb cls_export 1
   | ROk api0 =>
   (* vm_compute is call-by-value: branch explicitly so that the orders are only tried when needed *)
-  if match reflect D fs with
+  if match omap fst (ReflectOwn.o_reflect D fs) with
      | Ok st =>
          (* what the round-trip theorem assumes of a reflected set, checked on every case *)
          keys_distinct st && set_importable st && set_closed st &&
@@ -105,9 +105,9 @@ Definition check_export (D : desc) (svcs : list svcd) (wanted : list str) (cls_e
      end
   then true
   else
-    (* with a split-name collision (two descriptors, one schema name) not only which failure is met
-       first but also whether the build succeeds, and with which schema under the shared name, depends
-       on the order: the observed API must be the API of some order *)
+    (* which failure is met first depends on the order (before fix 0e6056c, with a split-name collision,
+       also whether the build succeeded and with which schema under the shared name): the observed
+       outcome must be the outcome of some order *)
     existsb (fun p => match api_from_image D svcs wanted p with
                       | Ok api => N.eqb cls_export 0 && same_api api first
                       | o => N.eqb cls_export (cls o)
